@@ -28,6 +28,8 @@
    pull_data / pull_stream       collapsed_restrict_to_data(...).pull_data / iter_pull_data for one
                                  package, restrictions abstracted to (bucket, matches?)
    non_incremental_pull          non_incremental_collapsed_restrict_to_data.pull_data
+   license_filter / _seq         domain._apply_license_filter as bound by _pkg_filters: one query /
+                                 a sequence of queries against one long-lived filter
    canon / enc_set / enc_res     canonical (sorted, duplicate-free) encoders for the harness
    ================================================================================= *)
 From Coq Require Import List NArith ZArith Bool.
@@ -336,6 +338,34 @@ Definition run_pull (i : bool * list source * list str) : val :=
   let '(fd, srcs, pre) := i in enc_res (pull_data fd srcs pre).
 Definition run_nipull (srcs : list source) : val := enc_res (non_incremental_pull srcs).
 
+(* ------------------------------------------------------------------ domain._apply_license_filter *)
+(* The only caller of incremental_expansion_license.  [master] = ACCEPT_LICENSE tokens bound into
+   the filter by _pkg_filters, [entries] = the token lists of the package.license lines.  A query
+   is one package: which entries' atoms match it, and the DNF alternatives of its LICENSE.  The
+   stream expanded for a package is master ++ the matching entries, in file order, and nothing
+   else: the filter is a long-lived object but carries no state from one query to the next. *)
+Inductive bres : Type := BOk (b : bool) | BFail (e : err).
+Definition lic_query : Type := (list bool * list (list str))%type.
+Definition superset (s l : list str) : bool := forallb (fun x => mem x s) l.
+Definition license_stream (master : list str) (entries : list (list str)) (ms : list bool) : list str :=
+  master ++ concat (map snd (filter fst (combine ms entries))).
+Fixpoint license_accept (groups : list (str * list str)) (stream : list str)
+         (alts : list (list str)) : bres :=
+  match alts with
+  | [] => BOk false
+  | alt :: r =>
+      match expand_license alt groups stream with
+      | Fail e => BFail e
+      | Ok s => if superset s alt then BOk true else license_accept groups stream r
+      end
+  end.
+Definition license_filter (master : list str) (entries : list (list str))
+           (groups : list (str * list str)) (q : lic_query) : bres :=
+  license_accept groups (license_stream master entries (fst q)) (snd q).
+(* a sequence of queries against ONE filter object *)
+Definition license_filter_seq master entries groups (qs : list lic_query) : list bres :=
+  map (license_filter master entries groups) qs.
+
 (* all streams in one input type, so that one cases file can carry every stream *)
 Inductive case_in : Type :=
 | CExpand (i : bool * list str * list str)
@@ -343,7 +373,18 @@ Inductive case_in : Type :=
 | CConsume (i : list str * list str)
 | CLicense (i : list str * list (str * list str) * list str)
 | CPull (i : bool * list source * list str)
-| CNiPull (srcs : list source).
+| CNiPull (srcs : list source)
+| CLicFilter (i : list str * list (list str) * list (str * list str) * list lic_query).
+Definition enc_bres (r : bres) : val := match r with BOk b => VB b | BFail e => enc_err e end.
+(* domain._pkg_filters installs the license filter only when there is an ACCEPT_LICENSE token or a
+   package.license entry; without it every package passes *)
+Definition license_visible_seq master (entries : list (list str)) groups (qs : list lic_query) : list bres :=
+  if is_nil master && is_nil entries then map (fun _ => BOk true) qs
+  else license_filter_seq master entries groups qs.
+(* stream "licfilter": (ACCEPT_LICENSE, package.license entries, groups, queries in call order) *)
+Definition run_licfilter (i : list str * list (list str) * list (str * list str) * list lic_query) : val :=
+  let '(master, entries, groups, qs) := i in
+  VL (map enc_bres (license_visible_seq master entries groups qs)).
 Definition run_case_with (strict : bool) (c : case_in) : val :=
   match c with
   | CExpand i => run_expand i
@@ -352,6 +393,7 @@ Definition run_case_with (strict : bool) (c : case_in) : val :=
   | CLicense i => run_license i
   | CPull i => run_pull i
   | CNiPull s => run_nipull s
+  | CLicFilter i => run_licfilter i
   end.
 Definition run_case := run_case_with true.            (* the repaired tree *)
 Definition run_case_pinned := run_case_with false.    (* the pinned tree *)
